@@ -429,6 +429,37 @@ func ruleBM25Stats(r *Run, rule string, k *textKind) {
 							dominated = true
 						}
 					}
+					// a saturating update (`if n > 0 { n-- }`): the test of the field's own value against zero stands for
+					// the update — when it fails the counter is already at the floor it would be moved towards
+					standIn := map[ssa.Instruction]bool{}
+					cg := NewCanon(w)
+					for _, o := range others {
+						for b := o.Block(); b != nil; b = b.Idom() {
+							d := b.Idom()
+							if d == nil {
+								break
+							}
+							iff, isIf := d.Instrs[len(d.Instrs)-1].(*ssa.If)
+							if !isIf {
+								continue
+							}
+							bo, isB := iff.Cond.(*ssa.BinOp)
+							if !isB {
+								continue
+							}
+							l, rr := cg.S(bo.X), cg.S(bo.Y)
+							if (strings.Contains(l, "P0."+g) && rr == "c(0)") || (strings.Contains(rr, "P0."+g) && l == "c(0)") {
+								if s0 := d.Succs[0]; len(s0.Preds) == 1 && (s0 == o.Block() || s0.Dominates(o.Block())) {
+									standIn[iff] = true
+								}
+							}
+						}
+					}
+					for g0 := range standIn {
+						if domInstr(g0, u) {
+							dominated = true
+						}
+					}
 					if dominated {
 						continue
 					}
@@ -438,7 +469,7 @@ func ruleBM25Stats(r *Run, rule string, k *textKind) {
 								return true
 							}
 						}
-						return false
+						return standIn[in]
 					}
 					esc := reachAvoid(fn, u, func(in ssa.Instruction) bool { _, isRet := in.(*ssa.Return); return isRet }, isOther)
 					if esc != nil {
@@ -548,6 +579,151 @@ func ruleBM25Deltas(r *Run, rule string, k *textKind) {
 			}
 		}
 	})
+	// the purge forgets the document everywhere: its postings and term frequencies for every one of its tokens, its
+	// token list and its length
+	{
+		var tfDel, postRm, tokDel, lenDel bool
+		allInstrs(purge, func(in ssa.Instruction) {
+			call, ok := in.(*ssa.Call)
+			if !ok {
+				return
+			}
+			if b, isB := call.Call.Value.(*ssa.Builtin); isB && b.Name() == "delete" && len(call.Call.Args) == 2 && c2.S(call.Call.Args[1]) == "P1" {
+				m := c2.S(call.Call.Args[0])
+				switch {
+				case strings.HasPrefix(m, "P0.tf[") && strings.Contains(m, "P0.docTokens[P1]"):
+					tfDel = true
+				case m == "P0.docTokens":
+					tokDel = true
+				case m == "P0.docLengths":
+					lenDel = true
+				}
+			}
+			if calleeName(call.Common()) == roaringBitmap+"Remove" && len(call.Call.Args) == 2 && c2.S(call.Call.Args[1]) == "P1" {
+				if m := c2.S(call.Call.Args[0]); strings.HasPrefix(m, "P0.postings[") && strings.Contains(m, "P0.docTokens[P1]") {
+					postRm = true
+				}
+			}
+		})
+		r.Check(tfDel && postRm && tokDel && lenDel, rule, "stats:purge:forgets", psite, "purge: for every token of the document its posting and its term frequency go, then its token list and its length",
+			fmt.Sprintf("purge leaves a trace of the document: postings cleaned=%v, term frequencies deleted=%v, token list deleted=%v, length deleted=%v (a later Add of the same id counts on top of the stale entries)", postRm, tfDel, tokDel, lenDel))
+	}
+	// the statistics are zeroed only when the last document went, and recomputed otherwise
+	{
+		recomputes := func(in ssa.Instruction) bool {
+			switch x := in.(type) {
+			case *ssa.Store:
+				return c2.S(x.Addr) == "P0.avgDocLen" && c2.S(x.Val) != "c(0)"
+			case *ssa.Call:
+				if g := staticCallee(x.Common()); g != nil && g.Pkg == w.SPkg && len(x.Call.Args) > 0 && x.Call.Args[0] == ssa.Value(purge.Params[0]) {
+					for _, st := range storesToField(w, g, "P0", "avgDocLen") {
+						if NewCanon(w).S(st.Val) != "c(0)" {
+							return true
+						}
+					}
+				}
+			}
+			return false
+		}
+		var emptySucc, liveSucc *ssa.BasicBlock
+		var emptySuccs, liveSuccs []*ssa.BasicBlock
+		undecidable := ""
+		allInstrs(purge, func(in ssa.Instruction) {
+			iff, ok := in.(*ssa.If)
+			if !ok {
+				return
+			}
+			bo, ok := iff.Cond.(*ssa.BinOp)
+			if !ok || !strings.Contains(c2.S(bo.X), "Load(P0.numDocs)") {
+				return
+			}
+			k0, isK := bo.Y.(*ssa.Const)
+			if !isK || k0.Value == nil {
+				return
+			}
+			v := k0.Int64()
+			t, f := iff.Block().Succs[0], iff.Block().Succs[1]
+			switch {
+			case bo.Op == token.GTR && v == 0, bo.Op == token.NEQ && v == 0, bo.Op == token.GEQ && v == 1, bo.Op == token.GEQ && v == 0:
+				liveSucc, emptySucc = t, f // (an unsigned count is always ≥ 0: the other arm is dead)
+			case bo.Op == token.EQL && v == 0, bo.Op == token.LSS && v == 1, bo.Op == token.LEQ && v == 0:
+				emptySucc, liveSucc = t, f
+			default:
+				undecidable = c2.S(bo)
+			}
+			if emptySucc != nil {
+				emptySuccs = append(emptySuccs, emptySucc)
+				liveSuccs = append(liveSuccs, liveSucc)
+			}
+		})
+		zeroOK, liveOK := true, false
+		detail := ""
+		if emptySucc != nil {
+			allInstrs(purge, func(in ssa.Instruction) {
+				st, ok := in.(*ssa.Store)
+				if !ok || c2.S(st.Val) != "c(0)" {
+					return
+				}
+				if a := c2.S(st.Addr); a != "P0.avgDocLen" && a != "P0.totalTokens" {
+					return
+				}
+				guarded := false
+				for _, es := range emptySuccs {
+					if (es == st.Block() || es.Dominates(st.Block())) && len(es.Preds) == 1 {
+						guarded = true
+					}
+				}
+				// a clamp of the field itself (`if total < 0 { total = 0 }`) is not a reset
+				for b := st.Block(); b != nil && !guarded; b = b.Idom() {
+					d := b.Idom()
+					if d == nil {
+						break
+					}
+					if iff, isIf := d.Instrs[len(d.Instrs)-1].(*ssa.If); isIf && (d.Succs[0] == b || d.Succs[0].Dominates(b)) {
+						if cb, isB := iff.Cond.(*ssa.BinOp); isB && cb.Op == token.LSS && c2.S(cb.X) == c2.S(st.Addr) && c2.S(cb.Y) == "c(0)" {
+							guarded = true
+						}
+					}
+				}
+				if !guarded {
+					zeroOK = false
+					detail = "statistics are zeroed at " + w.InstrPos(st) + " on a path where documents may remain"
+				}
+			})
+			for _, ls := range liveSuccs {
+				for _, b := range purge.Blocks {
+					if (ls == b || ls.Dominates(b)) && len(ls.Preds) == 1 {
+						for _, in := range b.Instrs {
+							if recomputes(in) {
+								liveOK = true
+							}
+						}
+					}
+				}
+			}
+			if !liveOK && detail == "" {
+				detail = "while documents remain the average length is not recomputed"
+			}
+		} else {
+			// no emptiness branch: the average must be recomputed unconditionally
+			allInstrs(purge, func(in ssa.Instruction) {
+				if recomputes(in) {
+					liveOK = true
+				}
+				if st, ok := in.(*ssa.Store); ok && c2.S(st.Val) == "c(0)" {
+					if a := c2.S(st.Addr); a == "P0.avgDocLen" || a == "P0.totalTokens" {
+						zeroOK = false
+						detail = "statistics are zeroed at " + w.InstrPos(st) + " without a test that no document is left"
+					}
+				}
+			})
+		}
+		if undecidable != "" {
+			zeroOK = false
+			detail = "the emptiness test is " + undecidable
+		}
+		r.Check(zeroOK && liveOK, rule, "stats:purge:reset-only-when-empty", psite, "purge: statistics are reset to zero only when no document is left, and the average is recomputed while documents remain", "purge: "+detail)
+	}
 	r.Check(okTok, rule, "stats:purge:delta", psite, "purge: totalTokens -= docLengths[id]", "purge: totalTokens becomes "+tokS)
 	r.Check(okNum, rule, "stats:purge:count", psite, "purge: numDocs -= 1", "purge: numDocs delta is "+numS)
 	// avg = float64(totalTokens)/float64(numDocs)
@@ -711,6 +887,11 @@ func ruleBM25TopK(r *Run, rule string, k *textKind) {
 				allLo = true // k <= 0
 			case !neg && cmp.Op == token.LEQ && strings.HasPrefix(cmp.L, "len(make") && cmp.R == kC:
 				allHi = true // len(scores) <= k
+			// the heap branch spelled positively: k > 0 && k < len(scores)
+			case !neg && cmp.Op == token.LSS && cmp.L == "c(0)" && cmp.R == kC:
+				allLo = true // 0 < k
+			case !neg && cmp.Op == token.LSS && cmp.L == kC && strings.HasPrefix(cmp.R, "len(make"):
+				allHi = true // k < len(scores)
 			case !neg && cmp.Op == token.LSS && strings.Contains(cmp.L, ".Len(") && cmp.R == kC:
 				pushLt = true // h.Len() < k
 			case !neg && (cmp.Op == token.LSS || cmp.Op == token.LEQ) && strings.HasSuffix(cmp.L, "[c(0)].Score") && strings.HasPrefix(cmp.R, "next("):
@@ -742,21 +923,34 @@ func ruleBM25TopK(r *Run, rule string, k *textKind) {
 				return
 			}
 			n++
-			phi, ok := ia.Index.(*ssa.Phi)
+			// the written index is i + off for a counter i that starts at len(X) + c0 and steps by −1; the first slot
+			// written is the last one when c0 + off = −1 (i := len−1 … out[i];  i := len … out[i−1])
+			var idxv ssa.Value = ia.Index
+			off := 0
+			if b, isB := idxv.(*ssa.BinOp); isB && b.Op == token.SUB && c.S(b.Y) == "c(1)" {
+				if _, isPhi := b.X.(*ssa.Phi); isPhi {
+					idxv, off = b.X, -1
+				}
+			}
+			phi, ok := idxv.(*ssa.Phi)
 			back := false
 			if ok {
-				var init, step bool
+				c0, haveInit, step := 0, false, false
 				for _, e := range phi.Edges {
 					if b, ok := e.(*ssa.BinOp); ok {
 						if b.Op == token.SUB && b.X == ssa.Value(phi) && c.S(b.Y) == "c(1)" {
 							step = true
+							continue
 						}
 						if b.Op == token.SUB && strings.HasPrefix(c.S(b.X), "len(") && c.S(b.Y) == "c(1)" {
-							init = true
+							c0, haveInit = -1, true
 						}
 					}
+					if strings.HasPrefix(c.S(e), "len(") || strings.Contains(c.S(e), ".Len(") {
+						c0, haveInit = 0, true
+					}
 				}
-				back = init && step
+				back = haveInit && step && c0+off == -1
 			}
 			r.Check(back, rule, fmt.Sprintf("bm25:topk:extract#%d", n), w.InstrPos(st)+" "+name, "min-heap is drained into the output back-to-front (descending order)",
 				"heap Pop results are not written back-to-front")
